@@ -103,3 +103,15 @@ Example ex_plain_conversion :
   exists src dst, srt_enc ex_plain = Ok src /\ convert_plain srt_dec vtt_enc src = Ok dst /\
                   vtt_dec dst = Ok (ptrunc 1000000 (ptrunc 1000000 ex_plain)).
 Proof. apply plain_srt_to_vtt; [exact ex_plain_srt_ok | exact ex_plain_vtt_ok]. Qed.
+
+(* Any source document - styled or not, in any rendering the source reader accepts - whose plain view the destination can
+   carry: the conversion through the plain view reads back as that plain view, truncated to the destination's unit.  Only
+   the destination needs to be plain-faithful. *)
+Theorem plain_sink {SA SB : Type} (decA : SA -> res plain) uB okB (encB : plain -> res SB) decB :
+  plain_faithful uB okB encB decB ->
+  forall src p, decA src = Ok p -> okB p ->
+  exists dst, convert_plain decA encB src = Ok dst /\ decB dst = Ok (ptrunc uB p).
+Proof.
+  intros HB src p Hd Hp. destruct (HB p Hp) as (dst & Hw & Hr). exists dst. split; [|exact Hr].
+  unfold convert_plain. rewrite Hd. exact Hw.
+Qed.
